@@ -135,7 +135,8 @@ CHECKS.update({
     "C18": dict(cat="other", ref="DESIGN §8 C18, 5.3, S.2",
                 text="Engine S kernel-stub mode: svd_qn runs on matrices of indeterminates (allowed and forbidden positions) with each LAPACK call replaced by a trivial exact "
                      "factorisation of the block; restoration of exactly the symmetry-allowed part, the label rule on the support of every output column, pairing and shapes "
-                     "are decided exactly for every label pattern on blocks up to 3x3 (4x4 thorough), one and two components, SVD economic/full and QR/RQ economic/full. "
+                     "are decided exactly for every label pattern on blocks up to 3x3 (4x4 thorough), one and two components, SVD economic/full and QR/RQ economic/full; eigh_qn (density-matrix path) with blocks built as V diag(w) V^H: only sectors with a partner "
+                     "label are kept and restored, every column label describes its support. "
                      "Kernel contracts evaluated at run time: expm_krylov vs scipy expm to its own stopping tolerance over structured spectra / start vectors inside "
                      "invariant subspaces / all dt phases / block sizes; svd_qn, eigh_qn and helpers (orthonormal factors, exact restoration of the symmetry-allowed "
                      "part, labels, global sort, pairing) exhaustively over all label patterns on <= 3x3 blocks. Bounded; floating-point kernels cannot be proved here.",
